@@ -1,10 +1,19 @@
 import Core.Eqv
-import Drv.Basic
+import Drv.Judge
+import Std.Data.String.ToNat
+set_option linter.unusedSectionVars false
 /-! # Driver code the verdicts depend on
 
 The generators and the monitors flatten the closure tables of the reference every 24 calls (`Drv.compactR`). The
 flattened state agrees with the original below the capacity, and states that agree there are indistinguishable by
-valid histories (`Core/Eqv.lean`): flattening changes no verdict. -/
+valid histories (`Core/Eqv.lean`): flattening changes no verdict.
+
+The direct monitors of C03–C05 recompute their expectations from the raw history of calls (`Drv.Hist`). `HistRel`
+says that these tables are the reference's tables; it holds initially, every call within the limits preserves it
+(`histRel_step`), and under it the direct expectations are the reference's answers (`direct_C03_is_reference`,
+`nextId_passes`): on a valid history the direct monitors cannot reject what the reference predicts. (Not covered: the
+text layer — printing and parsing of observation lines —, the C01 component search, and the monitors of the other
+operations.) -/
 namespace Props.Driver
 open Sodg Drv
 
@@ -25,5 +34,246 @@ theorem compactR_step (n c : Nat) (r r' : R) (h : Eqv c r r') (hb : IdsBelow c r
 theorem compactR_run (n c : Nat) (r : R) (hb : IdsBelow c r) (ops : List Op) (hv : Valid n c r ops) :
     Valid n c (compactR c r) ops ∧ R.run c r ops = R.run c (compactR c r) ops :=
   Eqv.run ops r (compactR c r) (compactR_eqv c r) hb hv
+
+theorem assocGet_set {α β} [DecidableEq α] (l : List (α × β)) (k k' : α) (v : β) :
+    assocGet (assocSet l k v) k' = if k' = k then some v else assocGet l k' := by
+  unfold assocGet assocSet
+  by_cases h : k' = k
+  · subst h; simp
+  · simp only [List.find?_cons, h, if_false]
+    have hk : ¬ k = k' := fun e => h e.symm
+    simp only [hk, decide_false]
+    congr 1
+    induction l with
+    | nil => rfl
+    | cons x xs ih =>
+      simp only [List.filter_cons]
+      by_cases hx : x.1 = k
+      · simp only [hx, ne_eq, not_true_eq_false, decide_false, Bool.false_eq_true, if_false, List.find?_cons, hk]
+        exact ih
+      · simp only [ne_eq, hx, not_false_eq_true, decide_true, if_true, List.find?_cons]
+        split
+        · rfl
+        · exact ih
+
+theorem assocGet_filter_ne {α β} [DecidableEq α] (l : List (α × β)) (v k : α) :
+    assocGet (l.filter (fun e => e.1 ≠ v)) k = if k = v then none else assocGet l k := by
+  unfold assocGet
+  induction l with
+  | nil => simp
+  | cons x xs ih =>
+    simp only [List.filter_cons]
+    by_cases hx : x.1 = v
+    · simp only [hx, ne_eq, not_true_eq_false, decide_false, Bool.false_eq_true, if_false, List.find?_cons]
+      by_cases hk : k = v
+      · simp only [hk, if_true] at ih ⊢; exact ih
+      · have : ¬ v = k := fun e => hk e.symm
+        simp only [hk, if_false, this, decide_false] at ih ⊢; exact ih
+    · simp only [ne_eq, hx, not_false_eq_true, decide_true, if_true, List.find?_cons]
+      by_cases hxk : x.1 = k
+      · have : ¬ k = v := by rw [← hxk]; exact hx
+        simp [hxk, this]
+      · simp only [hxk, decide_false]
+        exact ih
+
+
+/-- the tables the direct monitors recompute from the raw history are the reference's tables -/
+structure HistRel (hs : Hist) (r : R) : Prop where
+  edges : ∀ v ∈ r.ids, (assocGet hs.edges v).getD [] = r.edg v
+  puts : ∀ v ∈ r.ids, assocGet hs.puts v = (r.dat v).map (·.toBytes)
+  unread : ∀ v ∈ r.ids, v ∈ hs.unread ↔ r.unr v = true
+  issued : ∀ i ∈ hs.issued, i < r.pos
+
+theorem histRel_empty : HistRel {} (Sodg.R.empty : R) :=
+  ⟨by simp [Sodg.R.empty], by simp [Sodg.R.empty], by simp [Sodg.R.empty], by simp⟩
+
+theorem mem_keys (r : R) (c v : Nat) (hv : v < c) : v ∈ R.keys r c ↔ v ∈ r.ids := by
+  simp [R.keys, hv]
+
+theorem bind_fields (r : R) (v1 v2 : Nat) (a : Label) :
+    (r.bind v1 v2 a).dat = r.dat ∧ (r.bind v1 v2 a).unr = r.unr ∧ (r.bind v1 v2 a).pos = r.pos := by
+  unfold R.bind R.bindGrp R.setEdge; simp only; split <;> exact ⟨rfl, rfl, rfl⟩
+
+theorem data_fields (r : R) (v : Nat) :
+    (r.data v).edg = r.edg ∧ (r.data v).dat = r.dat ∧ (r.data v).pos = r.pos ∧ (∀ w ∈ (r.data v).ids, w ∈ r.ids) ∧
+      (r.data v).unr v = false ∧ (∀ w, w ≠ v → (r.data v).unr w = r.unr w) := by
+  simp only [R.data]
+  split
+  · split
+    · exact ⟨rfl, rfl, rfl, fun _ h => h, by simp, fun w hw => by simp [upd_get, hw]⟩
+    · split
+      · exact ⟨rfl, rfl, rfl, fun w h => (List.mem_filter.1 h).1, by simp, fun w hw => by simp [upd_get, hw]⟩
+      · exact ⟨rfl, rfl, rfl, fun _ h => h, by simp, fun w hw => by simp [upd_get, hw]⟩
+  · next h => exact ⟨rfl, rfl, rfl, fun _ h => h, by simpa using h, fun _ _ => rfl⟩
+
+/-- **one judged call keeps the monitors' history tables equal to the reference's**: after any call within the
+    limits, with the alive sets the reference predicts and (for `next_id`) the id the reference returns -/
+theorem histRel_step (n c : Nat) (hs : Hist) (r : R) (h : HistRel hs r) (op : Op) (ok : OkStep n c r op) (out : String)
+    (hout : ∀ i, (R.step c r op).2 = .id i → out = toString i) :
+    HistRel (hs.update op (R.keys r c) (R.keys (R.step c r op).1 c) out) (R.step c r op).1 := by
+  cases op with
+  | add v =>
+    have hv : v < c := ok
+    simp only [Hist.update, R.step]
+    by_cases hp : v ∈ r.ids
+    · rw [if_pos ((mem_keys r c v hv).2 hp), R.add_present_noop r v hp]; exact h
+    · rw [if_neg (fun hk => hp ((mem_keys r c v hv).1 hk))]
+      obtain ⟨a1, a2, a3, _, a5, a6⟩ := R.add_absent_blank r v hp
+      refine ⟨?_, ?_, ?_, ?_⟩
+      · intro w hw
+        simp only [assocGet_filter_ne]
+        by_cases hwv : w = v
+        · subst hwv; simp [a2]
+        · simp only [hwv, if_false]
+          obtain ⟨i1, i2, _⟩ := a6 w hwv
+          rw [i2]; exact h.edges w (i1.1 hw)
+      · intro w hw
+        simp only [assocGet_filter_ne]
+        by_cases hwv : w = v
+        · subst hwv; simp [a3]
+        · simp only [hwv, if_false]
+          obtain ⟨i1, _, i3, _⟩ := a6 w hwv
+          rw [i3]; exact h.puts w (i1.1 hw)
+      · intro w hw
+        by_cases hwv : w = v
+        · subst hwv; simp [a5]
+        · obtain ⟨i1, _, _, _, i5⟩ := a6 w hwv
+          rw [i5]
+          simp only [List.mem_filter, hwv, ne_eq, not_false_eq_true, decide_true, and_true]
+          exact h.unread w (i1.1 hw)
+      · intro i hi
+        have : (r.add v).pos = r.pos := by simp [R.add, hp]
+        rw [this]; exact h.issued i hi
+  | bind v1 v2 a =>
+    simp only [Hist.update, R.step]
+    obtain ⟨b1, b2, b3⟩ := bind_fields r v1 v2 a
+    have hv1 : v1 ∈ r.ids := ok.1.p1
+    refine ⟨?_, ?_, ?_, ?_⟩
+    · intro w hw
+      rw [R.ids_bind] at hw
+      rw [edg_bind, assocGet_set]
+      by_cases hwv : w = v1
+      · subst hwv
+        simp only [if_true, Option.getD_some, upd_same]
+        rw [h.edges w hv1]; rfl
+      · simp only [hwv, if_false, upd_get]
+        exact h.edges w hw
+    · intro w hw; rw [R.ids_bind] at hw; rw [b1]; exact h.puts w hw
+    · intro w hw; rw [R.ids_bind] at hw; rw [b2]; exact h.unread w hw
+    · intro i hi; rw [b3]; exact h.issued i hi
+  | put v d =>
+    simp only [Hist.update, R.step, R.put]
+    refine ⟨h.edges, ?_, ?_, h.issued⟩
+    · intro w hw
+      rw [assocGet_set]
+      by_cases hwv : w = v
+      · subst hwv; simp
+      · simp only [hwv, if_false, upd_get]; exact h.puts w hw
+    · intro w hw
+      by_cases hwv : w = v
+      · subst hwv; simp
+      · simp only [List.mem_cons, hwv, false_or, List.mem_filter, ne_eq, not_false_eq_true, decide_true, and_true, upd_get,
+          if_false]
+        exact h.unread w hw
+  | data v =>
+    simp only [Hist.update, R.step]
+    obtain ⟨d1, d2, d3, d4, d5, d6⟩ := data_fields r v
+    refine ⟨?_, ?_, ?_, ?_⟩
+    · intro w hw; rw [d1]; exact h.edges w (d4 w hw)
+    · intro w hw; rw [d2]; exact h.puts w (d4 w hw)
+    · intro w hw
+      by_cases hwv : w = v
+      · subst hwv; simp [d5]
+      · rw [d6 w hwv]
+        simp only [List.mem_filter, hwv, ne_eq, not_false_eq_true, decide_true, and_true]
+        exact h.unread w (d4 w hw)
+    · intro i hi; rw [d3]; exact h.issued i hi
+  | kid v a => exact h
+  | kids v => exact h
+  | keys => exact h
+  | nextId =>
+    simp only [Hist.update]
+    cases hn : r.nextId c with
+    | none =>
+      have e1 : (R.step c r (.nextId : Op)).1 = r := by simp [R.step, hn]
+      rw [e1]
+      split
+      · next i hi =>
+        -- no id was returned: the payload is not a number the reference knows; nothing is recorded by the caller
+        obtain ⟨j, hj1, hj2, hj3⟩ := ok
+        unfold R.nextId at hn
+        have : (List.range c).find? (fun v => decide (v ∉ r.ids ∧ r.pos ≤ v)) ≠ none := by
+          intro hf
+          have := List.find?_eq_none.1 hf j (by simp [hj1])
+          simp [hj2, hj3] at this
+        cases hf : (List.range c).find? (fun v => decide (v ∉ r.ids ∧ r.pos ≤ v)) with
+        | none => exact absurd hf this
+        | some id => rw [hf] at hn; simp at hn
+      · exact h
+    | some pr =>
+      obtain ⟨r', i⟩ := pr
+      have e1 : (R.step c r (.nextId : Op)).1 = r' := by simp [R.step, hn]
+      have e2 : (R.step c r (.nextId : Op)).2 = .id i := by simp [R.step, hn]
+      rw [e1]
+      have ho := hout i e2
+      subst ho
+      have hnat : (toString i).toNat? = some i := Nat.toNat?_repr i
+      rw [hnat]
+      simp only
+      unfold R.nextId at hn
+      cases hf : (List.range c).find? (fun v => decide (v ∉ r.ids ∧ r.pos ≤ v)) with
+      | none => rw [hf] at hn; cases hn
+      | some id =>
+        rw [hf] at hn
+        simp only [Option.some.injEq, Prod.mk.injEq] at hn
+        obtain ⟨hr', hid⟩ := hn
+        subst hid
+        have hpos : r.pos ≤ r'.pos ∧ id < r'.pos := by
+          rw [← hr']; split <;> simp <;> omega
+        have hrest : r'.ids = r.ids ∧ r'.edg = r.edg ∧ r'.dat = r.dat ∧ r'.unr = r.unr := by
+          rw [← hr']; split <;> exact ⟨rfl, rfl, rfl, rfl⟩
+        obtain ⟨q1, q2, q3, q4⟩ := hrest
+        refine ⟨by rw [q1, q2]; exact h.edges, by rw [q1, q3]; exact h.puts, by rw [q1, q4]; exact h.unread, ?_⟩
+        intro j hj
+        simp only [List.mem_cons] at hj
+        rcases hj with rfl | hj
+        · exact hpos.2
+        · exact Nat.lt_of_lt_of_le (h.issued j hj) hpos.1
+
+/-- what `next_id()` returns in the reference passes the direct C05 monitor: below the capacity, absent, and never
+    returned before on this graph -/
+theorem nextId_passes (c : Nat) (hs : Hist) (r r' : R) (i : Nat) (h : HistRel hs r) (hn : r.nextId c = some (r', i)) :
+    i < c ∧ i ∉ R.keys r c ∧ i ∉ hs.issued := by
+  unfold R.nextId at hn
+  cases hf : (List.range c).find? (fun v => decide (v ∉ r.ids ∧ r.pos ≤ v)) with
+  | none => rw [hf] at hn; cases hn
+  | some id =>
+    rw [hf] at hn
+    simp only [Option.some.injEq, Prod.mk.injEq] at hn
+    obtain ⟨_, hid⟩ := hn
+    subst hid
+    have hm := List.mem_of_find?_eq_some hf
+    have hp := List.find?_some hf
+    simp only [List.mem_range] at hm
+    simp only [decide_eq_true_eq] at hp
+    refine ⟨hm, fun hk => hp.1 ((mem_keys r c id hm).1 hk), fun hi => ?_⟩
+    have := h.issued id hi
+    omega
+
+
+/-- hence **what the direct C03 monitor expects is what the reference answers**: `kid`, `kids` and `data` of a present
+    vertex, recomputed from the raw history of binds and puts, are the reference's outputs — the direct monitor and
+    the comparison with the reference can never disagree on a valid history -/
+theorem direct_C03_is_reference (c : Nat) (hs : Hist) (r : R) (h : HistRel hs r) (v : Nat) (hv : v ∈ r.ids) (a : Label) :
+    (R.step c r (.kid v a)).2 = .kid (lookup ((assocGet hs.edges v).getD []) a) ∧
+    (R.step c r (.kids v)).2 = .kids ((assocGet hs.edges v).getD []) ∧
+    (match (R.step c r (.data v)).2 with
+      | .data d => d.map (·.toBytes) = assocGet hs.puts v
+      | _ => False) := by
+  refine ⟨?_, ?_, ?_⟩
+  · simp only [R.step]; rw [h.edges v hv]
+  · simp only [R.step]; rw [h.edges v hv]
+  · simp only [R.step]; rw [h.puts v hv]
+
 
 end Props.Driver
